@@ -267,6 +267,7 @@ pub fn gen_event_cfg(rng: &mut Rng) -> OutCfg {
     // outstation-side keep-alive: link status requests written when nothing was heard for that long
     cfg.keep_alive_ms = *rng.pick(&[None, None, None, Some(700u64), Some(4000)]);
     cfg.restart_answer = *rng.pick(&[0u8, 0, 1, 2]);
+    cfg.attrs = rng.chance(1, 4);
     let style = rng.below(3);
     for i in 0..8 {
         cfg.event_buffers[i] = match style {
